@@ -2,15 +2,15 @@ package lsm
 
 import (
 	"bytes"
-	"strings"
-	"os"
 	"encoding/json"
 	"fmt"
+	"os"
 	"regexp"
 	"runtime"
 	"slices"
 	"sort"
 	"strconv"
+	"strings"
 	"sync"
 	"time"
 
@@ -280,7 +280,9 @@ func Exec(p Program, c *hx.Case, mode Mode) (err error) {
 	return nil
 }
 
-func (in *interp) key(i int) []byte { return in.p.Keys[((i%len(in.p.Keys))+len(in.p.Keys))%len(in.p.Keys)] }
+func (in *interp) key(i int) []byte {
+	return in.p.Keys[((i%len(in.p.Keys))+len(in.p.Keys))%len(in.p.Keys)]
+}
 
 func (in *interp) quiescent() bool {
 	s := in.s
@@ -669,21 +671,30 @@ func (in *interp) retain(step int, op Op) error {
 	}
 	// keep a non-empty suffix-or-subset chosen by the program; the newest is always kept
 	var ids []uint64
-	// A "late" update (B odd) was sent before the newest checkpoint existed: it
-	// names only older ones, and the newer checkpoint must survive it.
-	late := op.B%2 == 1 && len(live) >= 2
+	// A late update (B%4 = 1..3) was sent before the newest 1..3 checkpoints
+	// existed (the job delivers the updates one after another, a slow operator
+	// delays all later ones): it names only older checkpoints, and every newer
+	// one must survive it.
+	lateBy := min(op.B%4, len(live)-1)
+	if op.B < 0 {
+		lateBy = 0
+	}
+	newestNamed := len(live) - 1 - lateBy
 	for i, ck := range live {
 		switch {
-		case late && i == len(live)-1:
+		case i > newestNamed:
 			// not named, still retained
-		case late && i == len(live)-2, !late && i == len(live)-1, (op.A>>uint(i%16))&1 == 1:
+		case i == newestNamed, (op.A>>uint(i%16))&1 == 1:
 			ids = append(ids, ck.id)
 		default:
 			ck.retained = false
 		}
 	}
-	if late {
+	if lateBy > 0 {
 		in.lateRetains++
+	}
+	if lateBy > 1 {
+		in.c.Label("retention update late by >=2 checkpoints")
 	}
 	// WAL files of the checkpoints about to be dropped (from the current document)
 	dropWALs := map[uint64][]string{}
